@@ -170,10 +170,14 @@ def corrupt_sched(case):
 
 
 def run_cases(ctx, binary, mode, cases, critical, prefix, timeout=None):
-    """replay_behaviours for one engine mode; returns the results and aggregates the engines' statistics."""
-    res = ctx.replay_behaviours(binary, cases, args=[mode], critical=critical, wrap=lambda c: c, timeout=timeout or ctx.q(1500, 4 * 3600),
-                                fingerprint=lambda c, r: prefix + ":" + ((c["name"] + ":") if c.get("name") else "") + re.sub(r"^(C0[89]):", "", str(r.get("fp"))),
-                                shards=min(vlib.NCPU, max(1, len(cases) // 3)))
+    """replay_behaviours for one engine mode, in batches of 40 cases on 4 engine processes (an engine process serves at
+    most ~10 cases: bounded memory); returns the results and aggregates the engines' statistics."""
+    res = []
+    for i in range(0, len(cases), 40):
+        part = cases[i:i + 40]
+        res += ctx.replay_behaviours(binary, part, args=[mode], critical=critical, wrap=lambda c: c, timeout=timeout or ctx.q(1800, 2 * 3600),
+                                     fingerprint=lambda c, r: prefix + ":" + ((c["name"] + ":") if c.get("name") else "") + re.sub(r"^(C0[89]):", "", str(r.get("fp"))),
+                                     shards=min(4, max(1, len(part) // 2)))
     agg = collections.Counter()
     cov = collections.Counter()
     for r in res:
